@@ -21,6 +21,7 @@ package asm
 
 import (
 	"github.com/llir/ll/ast"
+	"github.com/llir/llvm/internal/enc"
 	"github.com/llir/llvm/ir"
 	"github.com/llir/llvm/ir/types"
 	"github.com/llir/llvm/ir/value"
@@ -92,11 +93,51 @@ func (fgen *funcGen) createLocals(oldBlocks []ast.BasicBlock) error {
 	// Note: the type of call instructions and invoke terminators must be
 	// determined before assigning local IDs, as they may be values or non-values
 	// based on return type. This is done by fgen.newLocals.
+	//
+	// Local IDs given explicitly in the input must match the IDs assigned by
+	// position; record them before assignment and validate them afterwards.
+	explicit := fgen.explicitLocalIDs()
 	if err := fgen.f.AssignIDs(); err != nil {
 		return errors.WithStack(err)
 	}
+	for _, e := range explicit {
+		if want, got := e.v.ID(), e.id; want != got {
+			return errors.Errorf("invalid local ID in function %q, expected %s, got %s", fgen.f.Ident(), enc.LocalID(want), enc.LocalID(got))
+		}
+	}
 	// Index local identifiers.
 	return fgen.indexLocals()
+}
+
+// explicitLocalID is a local ID given explicitly in the input.
+type explicitLocalID struct {
+	// Unnamed local variable.
+	v local
+	// ID given in the input.
+	id int64
+}
+
+// explicitLocalIDs returns the non-zero local IDs given explicitly in the
+// input to the unnamed parameters, basic blocks, instructions and terminators
+// of the function, in order of occurrence.
+func (fgen *funcGen) explicitLocalIDs() []explicitLocalID {
+	var explicit []explicitLocalID
+	record := func(x interface{}) {
+		if v, ok := x.(local); ok && v.IsUnnamed() && v.ID() != 0 {
+			explicit = append(explicit, explicitLocalID{v: v, id: v.ID()})
+		}
+	}
+	for _, param := range fgen.f.Params {
+		record(param)
+	}
+	for _, block := range fgen.f.Blocks {
+		record(block)
+		for _, inst := range block.Insts {
+			record(inst)
+		}
+		record(block.Term)
+	}
+	return explicit
 }
 
 // newLocals creates scaffolding IR local variables (without bodies but with
